@@ -203,7 +203,7 @@ impl Arena {
     wf_shape(self.av(), st@),
     forall|a: u32, b: u32| check.requires((a, b)),
   ensures
-    forall|asc: bool| cmp_is(check, asc) ==> #[trigger] fp_post(st@, val, asc, r), // [C10]
+    forall|asc: bool| #[trigger] tr(asc) && cmp_is(check, asc) ==> fp_post(st@, val, asc, r), // [C10]
 //@before 1 /^\s*loop/
     let ghost mut idx: int = -1;
     proof { lemma_dec_enc(size_of_cell(st@.list, -1), next_of(st@.list, -1)); }
@@ -228,13 +228,13 @@ impl Arena {
 //@before 1 /current = next;/
       proof { idx = idx + 1; }
 //@before 1 /return \(\*current_node, current\);/
-        proof { assert forall|asc: bool| cmp_is(check, asc) implies #[trigger] fp_post(st@, val, asc, (*current_node, current)) by { lemma_first_idx(st@.list, val, asc, idx + 1); } }
+        proof { assert forall|asc: bool| #[trigger] tr(asc) && cmp_is(check, asc) implies fp_post(st@, val, asc, (*current_node, current)) by { lemma_first_idx(st@.list, val, asc, idx + 1); } }
 //@before 2 /return \(\*current_node, current\);/
-        proof { assert forall|asc: bool| cmp_is(check, asc) implies #[trigger] fp_post(st@, val, asc, (*current_node, current)) by { lemma_first_idx(st@.list, val, asc, idx + 1); } }
+        proof { assert forall|asc: bool| #[trigger] tr(asc) && cmp_is(check, asc) implies fp_post(st@, val, asc, (*current_node, current)) by { lemma_first_idx(st@.list, val, asc, idx + 1); } }
 //@before 3 /return \(\*current_node, current\);/
-        proof { assert forall|asc: bool| cmp_is(check, asc) implies #[trigger] fp_post(st@, val, asc, (*current_node, current)) by { lemma_first_idx(st@.list, val, asc, idx + 1); } }
+        proof { assert forall|asc: bool| #[trigger] tr(asc) && cmp_is(check, asc) implies fp_post(st@, val, asc, (*current_node, current)) by { lemma_first_idx(st@.list, val, asc, idx + 1); } }
 //@before 4 /return \(\*current_node, current\);/
-        proof { assert forall|asc: bool| cmp_is(check, asc) implies #[trigger] fp_post(st@, val, asc, (*current_node, current)) by { lemma_first_idx(st@.list, val, asc, idx + 1); } }
+        proof { assert forall|asc: bool| #[trigger] tr(asc) && cmp_is(check, asc) implies fp_post(st@, val, asc, (*current_node, current)) by { lemma_first_idx(st@.list, val, asc, idx + 1); } }
 //@@end
 
 //@@fn file=unsync.rs scope="impl Arena {" name=find_prev_and_next xlate=unsync st=ref props=C10
@@ -243,7 +243,7 @@ impl Arena {
     wf_shape(self.av(), st@),
     forall|a: u32, b: u32| check.requires((a, b)),
   ensures
-    forall|asc: bool| cmp_is(check, asc) ==> #[trigger] fpn_post(st@, val, asc, r), // [C10]
+    forall|asc: bool| #[trigger] tr(asc) && cmp_is(check, asc) ==> fpn_post(st@, val, asc, r), // [C10]
 //@before 1 /^\s*loop/
     let ghost mut idx: int = -1;
     proof { lemma_dec_enc(size_of_cell(st@.list, -1), next_of(st@.list, -1)); }
@@ -266,15 +266,15 @@ impl Arena {
         lemma_dec_enc(size_of_cell(st@.list, idx + 1), next_of(st@.list, idx + 1));
       }
 //@before 1 /return Some\(\(\(\*current_node, current\)/
-        proof { assert forall|asc: bool| cmp_is(check, asc) implies #[trigger] fpn_post(st@, val, asc, Some(((*current_node, current), (*next_node, next)))) by { lemma_first_idx(st@.list, val, asc, idx + 1); } }
+        proof { assert forall|asc: bool| #[trigger] tr(asc) && cmp_is(check, asc) implies fpn_post(st@, val, asc, Some(((*current_node, current), (*next_node, next)))) by { lemma_first_idx(st@.list, val, asc, idx + 1); } }
 //@before 1 /current = self\.get_segment_node\(st, next_offset\);/
       proof { idx = idx + 1; }
 //@before 1 /return None;/
-        proof { assert forall|asc: bool| cmp_is(check, asc) implies #[trigger] fpn_post(st@, val, asc, None) by { lemma_first_idx(st@.list, val, asc, idx + 1); } }
+        proof { assert forall|asc: bool| #[trigger] tr(asc) && cmp_is(check, asc) implies fpn_post(st@, val, asc, None) by { lemma_first_idx(st@.list, val, asc, idx + 1); } }
 //@before 2 /return None;/
-        proof { assert forall|asc: bool| cmp_is(check, asc) implies #[trigger] fpn_post(st@, val, asc, None) by { lemma_first_idx(st@.list, val, asc, idx + 1); } }
+        proof { assert forall|asc: bool| #[trigger] tr(asc) && cmp_is(check, asc) implies fpn_post(st@, val, asc, None) by { lemma_first_idx(st@.list, val, asc, idx + 1); } }
 //@before 3 /return None;/
-        proof { assert forall|asc: bool| cmp_is(check, asc) implies #[trigger] fpn_post(st@, val, asc, None) by { lemma_first_idx(st@.list, val, asc, idx + 1); } }
+        proof { assert forall|asc: bool| #[trigger] tr(asc) && cmp_is(check, asc) implies fpn_post(st@, val, asc, None) by { lemma_first_idx(st@.list, val, asc, idx + 1); } }
 //@@end
 
 // ---- release into the free list ---------------------------------------------------------------------------
@@ -314,7 +314,7 @@ impl Arena {
     let ghost i: int = first_idx(s0.list, n.1, true) - 1;
     proof {
       lemma_first_idx_props_from(s0.list, n.1, true, 0);
-      assert(fp_post(s0, n.1, true, (current_node_size_and_next_node_offset, current)));
+      assert(tr(true));
       lemma_dec_enc(size_of_cell(s0.list, i), next_of(s0.list, i));
       if i >= 0 { assert(node_ok(self.av(), s0, s0.list[i])); }
     }
@@ -379,7 +379,7 @@ impl Arena {
     let ghost i: int = first_idx(s0.list, n.1, false) - 1;
     proof {
       lemma_first_idx_props_from(s0.list, n.1, false, 0);
-      assert(fp_post(s0, n.1, false, (current_node_size_and_next_node_offset, current)));
+      assert(tr(false));
       lemma_dec_enc(size_of_cell(s0.list, i), next_of(s0.list, i));
       if i >= 0 { assert(node_ok(self.av(), s0, s0.list[i])); }
     }
@@ -396,6 +396,83 @@ impl Arena {
     let ghost s2 = st@;
 //@after 1 /self\.increase_discarded\(st, segment_node\.data_offset - segment_node\.ptr_offset\);/
     proof { lemma_wf_frame(self.av(), s2, st@, 0, 0); }
+//@@end
+
+// ---- allocation from the free list (slow paths) -----------------------------------------------------------------
+
+//@@fn file=unsync.rs scope="impl Arena {" name=alloc_slow_path_pessimistic xlate=unsync st=mut props=C01,C03,C04,C08,C09,C10,C20
+//@closure
+  b == (val <= next_node_size)
+//@contract
+  requires
+    wf(self.av(), old(st)@),
+    self.freelist == Freelist::Pessimistic,
+    old(st)@.discarded + 8 <= u32::MAX as int, // [C20]
+  ensures
+    self.ro ==> r matches Err(Error::ReadOnly), // [C09 C04]
+    r.is_err() ==> final(st)@ == old(st)@, // [C04 C09]
+    !self.ro ==> (r.is_err() <==> pick(old(st)@.list, size, self.freelist) == old(st)@.list.len()), // [C10 C04]
+    r matches Err(e) ==> (e matches Error::ReadOnly) || (e matches Error::InsufficientSpace { .. }), // [C04]
+    r matches Ok(m) ==> slow_ok(self.av(), old(st)@, final(st)@, size, pick(old(st)@.list, size, self.freelist),
+          m.memory_offset as int, m.memory_size as int, m.ptr_offset as int, m.ptr_size as int), // [C10 C03 C20 C01]
+    r matches Ok(m) ==> all_zero(final(st)@.bytes, m.ptr_offset as int, m.ptr_offset as int + m.ptr_size as int), // [C08]
+    r matches Ok(m) ==> clear_of_list(final(st)@.list, m.memory_offset as int, m.ptr_offset as int + m.ptr_size as int), // [C01]
+    r matches Ok(m) ==> m.parent_ptr == self.ptr as *const u8,
+    frame_ok(old(st)@.list, old(st)@.bytes, final(st)@.bytes, 0, 0), // [C01]
+    wf_shape(self.av(), final(st)@), // [C01 C10]
+    wf_order(self.av(), final(st)@), // [C10]
+//@before 1 /let Some\(\(\(prev_node_val, prev_node\), \(next_node_val, _\)\)\) =/
+    let ghost s0 = st@;
+    let ghost l = s0.list;
+    let ghost k = first_idx(l, size, true);
+    proof { lemma_first_idx_bounds(l, size, true); }
+//@before 1 /return Err\(Error::InsufficientSpace/
+      proof { assert(tr(true)); }
+//@before 1 /let \(prev_node_size, next_node_offset\) = decode_segment_node\(prev_node_val\);/
+    proof { assert(tr(true)); }
+    let ghost n = l[k];
+    proof {
+      lemma_first_idx_props_from(l, size, true, 0);
+      lemma_dec_enc(size_of_cell(l, k - 1), next_of(l, k - 1));
+      lemma_dec_enc(size_of_cell(l, k), next_of(l, k));
+      assert(node_ok(self.av(), s0, n));
+      if k >= 1 { assert(node_ok(self.av(), s0, l[k - 1])); }
+    }
+//@after 1 /st\.store\(prev_node, updated_prev\);/
+    proof {
+      st.list = Ghost(l.remove(k));
+      lemma_remove_bytes(self.av(), s0, st@, k);
+      lemma_remove_shape(self.av(), s0, st@, k);
+      lemma_remove_order(self.av(), s0, st@, k);
+    }
+    let ghost s1 = st@;
+//@after 1 /let data_end_offset = segment_node\.data_offset \+ size;/
+    proof {
+      assert(s1.list == l.remove(k));
+    }
+//@after 1 /self\.pessimistic_dealloc\(st, data_end_offset, remaining\);/
+      proof {
+        lemma_first_idx_bounds(s1.list, seg_node(data_end_offset as int, remaining as int).1, true);
+        lemma_clear_of_list_insert(s1.list, first_idx(s1.list, seg_node(data_end_offset as int, remaining as int).1, true), seg_node(data_end_offset as int, remaining as int), n.0 as int, data_end_offset as int);
+      }
+//@before 1 /let mut allocated = Meta::new\(self\.ptr as _, segment_node\.ptr_offset, memory_size\);/
+    let ghost s2 = st@;
+    proof {
+      lemma_in_list_remove(l, k);
+      lemma_frame_compose(l, s1.list, s0.bytes, s1.bytes, s2.bytes, data_end_offset as int, data_end_offset as int + remaining as int, k);
+      assert(clear_of_list(s2.list, n.0 as int, data_end_offset as int));
+    }
+//@after 1 /allocated\.clear\(self, st\);/
+    proof {
+      lemma_zero_written(s2.bytes, n.0 as int + 8, size as int);
+      lemma_clear_headers(s2.list, n.0 as int + 8, data_end_offset as int);
+      lemma_wf_frame(self.av(), s2, st@, n.0 as int + 8, data_end_offset as int);
+      assert(frame_ok(l, s0.bytes, st@.bytes, 0, 0)) by {
+        assert forall|b: int| 0 <= b < s0.bytes.len() implies st@.bytes[b] == s0.bytes[b] || 0 <= b < 0 || #[trigger] in_list(l, b) by {
+          if n.0 as int + 8 <= b < data_end_offset as int { assert(in_node(l[k], b)); }
+        }
+      }
+    }
 //@@end
 
 } // impl Arena
